@@ -119,6 +119,9 @@ Theorem pinned_agrees_elsewhere pr a : (i64_min < a <= i64_max)%Z -> amount_scal
 Proof. intros Ha. unfold amount_scalar_pinned, i64_abs, wrap_u64. unfold_ranges. destruct (Z.ltb_spec a 0); [|reflexivity].
   destruct (Z.eqb_spec a (- 2 ^ 63)); [lia|]. rewrite Z.mod_small by lia.
   replace a with (- Z.abs a)%Z at 2 by lia. rewrite (of_Z_opp K). f_equal. ring. Qed.
+Theorem encoding_homomorphic (b a : Z) :
+  balance_scalar (K:=K) b - amount_scalar a = balance_scalar (b - a) /\ balance_scalar (K:=K) b + amount_scalar a = balance_scalar (b + a).
+Proof. split; [apply encoding_homomorphic_customer | apply encoding_homomorphic_merchant]. Qed.
 End Enc.
 
 (** in the BLS12-381 scalar field the encoding is injective on [0, q): field equations between encoded balances
